@@ -10,6 +10,8 @@ package props
 import (
 	"encoding/json"
 	"fmt"
+	"github.com/cenkalti/log"
+	"github.com/cenkalti/rain/v2/internal/logger"
 	"os"
 	"runtime"
 	"strconv"
@@ -25,6 +27,17 @@ import (
 )
 
 var prealloc [][]byte
+
+type logHook struct{}
+
+func (logHook) SetFormatter(log.Formatter) {}
+func (logHook) SetLevel(log.Level)         {}
+func (logHook) Close() error               { return nil }
+func (logHook) Handle(r *log.Record) {
+	if worlds.RainLog != nil {
+		worlds.RainLog(r.Message)
+	}
+}
 
 func TestSim(t *testing.T) {
 	if os.Getenv("SIMRT") == "" {
@@ -86,6 +99,10 @@ func TestSim(t *testing.T) {
 	simnet.Debug = os.Getenv("SIM_NETDEBUG") != ""
 	if os.Getenv("SIM_RAINLOG") == "" {
 		torrent.DisableLogging()
+		if plan.Scenario == "corrupt" {
+			// the client's log is an observation point of this scenario (hash failures)
+			logger.SetHandler(logHook{})
+		}
 	}
 	var env *worlds.Env
 	finish := func() {
